@@ -92,7 +92,7 @@ def case(draw):
     if nonl and orig:
         orig = orig[:-1]
     n = len(_model_lines(orig))
-    mode = draw(st.sampled_from(["w", "range", "range", "wq", "p", "w_other_first"]))
+    mode = draw(st.sampled_from(["w", "range", "range", "wq", "p", "w_other_first", "reread"]))
     a = b = 0
     sym = 0
     if mode == "range":
@@ -181,6 +181,10 @@ def run_case(env, c):
         expect = _norm(orig)
         cmd = b"wq\n"
         target = "f"
+    elif mode == "reread":
+        # the buffer already holds another text (the previous content of f) when the file is read again into it
+        expect = _norm(orig)
+        cmd = b"!cp src f\ne!\nw! out\n"
     else:
         expect = _norm(orig)
         k = 0
@@ -196,6 +200,14 @@ def run_case(env, c):
         if pv is not None:
             runner.write_file(d, "out", pv)
             prevlen = len(pv)
+    if mode == "reread":
+        runner.write_file(d, "src", orig)
+        runner.write_file(d, "f", {"none": b"", "shorter": b"old\n", "equal": b"old1\nold2\n", "longer": orig + b"old tail\n",
+                                   "much_longer": b"".join(b"old %d\n" % i for i in range(700))}[c["prev"]])
+        try:
+            os.remove(os.path.join(d, "out"))
+        except OSError:
+            pass
     r = runner.run_editor(env.paths["vi"], ["-s", "-e", "f"], cmd + runner.EX_TRAILER, d, want_stats=False)
     nt, cl = _nontrivial(c, expect, prevlen)
     cl.append("mode_" + mode)
